@@ -659,7 +659,7 @@ fn c06_scenarios(tier: Tier) -> Vec<Scenario> {
 
 pub fn scenarios(prop: &str, tier: Tier) -> Vec<Scenario> {
     match prop {
-        "C01" => c01_like(tier, Oracles { rets: true, dump_after: true, reopen_copy: true, dump_in_tx: true, probe_in_tx_end: Some(ProbeCfg::LIGHT), probe_after_commit: Some(ProbeCfg { gets: false, ..ProbeCfg::LIGHT }), ..Oracles::NONE }, true),
+        "C01" => c01_like(tier, Oracles { rets: true, dump_after: true, reopen_copy: true, dump_in_tx: true, dbcheck: true, probe_in_tx_end: Some(ProbeCfg::LIGHT), probe_after_commit: Some(ProbeCfg { gets: false, ..ProbeCfg::LIGHT }), ..Oracles::NONE }, true),
         "C05" => c01_like(tier, Oracles { fileck: true, dbcheck: true, ..Oracles::NONE }, true),
         "C07" => c01_like(tier, Oracles { rets: true, probe_each_op: Some(ProbeCfg::LIGHT), kept_cursor: true, ..Oracles::NONE }, false),
         "C06" => c06_scenarios(tier),
